@@ -174,12 +174,12 @@ def check_refs(case, agg):
     cs = env.new_csvpaths()
     nruns = case["nruns"]
     two = case["two_members"]
-    src_texts = ['~ id: src ~ $[1*][ @total = add(#0, 0) @last_c = #2 @by.k = #1 push("seen", #0) #1 ]']
+    src_texts = ['~ id: src ~ $[1*][ @total = add(#0, 0) @last_c = #2 @by.k = #1 @yr.2023 = #0 push("seen", #0) #1 ]']
     if two:
         # the second member looks at its own group's variables while the group is still running
         src_texts.append('~ id: other ~ $[1*][ @other_v = #0 @peek = $src.variables.total @late = line_number() yes() ]')
     cs.paths_manager.add_named_paths(name="src", paths=src_texts)
-    use = '~ id: use ~ $[1*][ @t = $src.variables.total @lc = $src.variables.last_c @k = $src.variables.by.k @st = $src.variables.seen ' + ("@hv = $src.headers.b.src @hl = $src.headers.c.src @hf = $src.headers.a.src " if two else "@hv = $src.headers.b @hl = $src.headers.c @hf = $src.headers.a ") + "]"
+    use = '~ id: use ~ $[1*][ @t = $src.variables.total @lc = $src.variables.last_c @k = $src.variables.by.k @y = $src.variables.yr.2023 @st = $src.variables.seen ' + ("@hv = $src.headers.b.src @hl = $src.headers.c.src @hf = $src.headers.a.src " if two else "@hv = $src.headers.b @hl = $src.headers.c @hf = $src.headers.a ") + "]"
     cs.paths_manager.add_named_paths(name="user", paths=[use])
     # (the replaying group's name starts with the referenced group's name, and its first replay starts in the same
     # second as the run it refers to: the two run directories have the same name under different groups)
@@ -243,11 +243,12 @@ def check_refs(case, agg):
             return "undecided", None
         return "reference-error", w
     got = ures.csvpath.variables
-    agg.count("references_checked", 7)
+    agg.count("references_checked", 8)
     want = {
         "t": last["vars"].get("total"),
         "lc": last["vars"].get("last_c"),
         "k": (last["vars"].get("by") or {}).get("k"),
+        "y": (last["vars"].get("yr") or {}).get("2023"),  # a tracking key made of digits is still a string key
         "st": last["vars"].get("seen"),
         "hv": [ln[1].strip() for ln in last["collected"]],
         "hl": [ln[2].strip() for ln in last["collected"]],  # the last column
